@@ -86,6 +86,9 @@ OLD_HANDLERS = [
     "inner",
     "conditional",
     "condition",
+    "conj",
+    "real",
+    "imag",
     "power",
     "variable",
     "indexed",
@@ -153,6 +156,7 @@ class C20(Scenario):
             "mkalg": 3,
             "apply": 6,
             "applyreal": 2 if arm != "real-algs" else 6,
+            "regrule": 1,
             "mkreal": 1 if arm != "real-algs" else 3,
             "applyinst": 1 if arm != "real-algs" else 7,
         }
@@ -162,6 +166,8 @@ class C20(Scenario):
         kinds = list(w)
 
         def kind_of(base):
+            if isinstance(base, list) and base[0] == "mi":
+                return "op"
             if isinstance(base, list):
                 for t in types:
                     if t[0] == base[1]:
@@ -203,7 +209,10 @@ class C20(Scenario):
                     continue
                 tnum += 1
                 name = f"New{tnum}"
-                if types and rng.random() < (0.3 if arm != "late-family" else 0.7):
+                opt = [t for t in types if t[4] == "op"]
+                if opt and rng.random() < 0.12:
+                    base = ["mi", ["$", rng.choice(opt)[0]], rng.choice(["Conj", "Real", "Imag"])]
+                elif types and rng.random() < (0.3 if arm != "late-family" else 0.7):
                     base = ["$", (types[-1] if arm == "late-family" and rng.random() < 0.7 else rng.choice(types))[0]]
                 elif arm == "real-algs" and rng.random() < 0.5:
                     base = rng.choice(CONCRETE_GEO)
@@ -254,10 +263,10 @@ class C20(Scenario):
             elif k == "defalg":
                 if len(classes) >= 8:
                     continue
-                base = rng.choice(["MF", "MF", "TR"])
+                base = rng.choice(["MF", "MF", "TR", "DT"])
                 parent = None
                 pcs = [c for c in classes if c[1] == base]
-                if pcs and rng.random() < 0.25:
+                if pcs and base != "DT" and rng.random() < 0.25:
                     parent = rng.choice(pcs)[0]
                 hs = {}
                 # a generic fallback most of the time, so dispatch usually succeeds
@@ -273,6 +282,10 @@ class C20(Scenario):
                 hi = tnum + (3 if arm in ("late-handler", "late-family") else 1)
                 for _ in range(rng.randint(0, 3) + (2 if arm in ("late-handler", "late-family") else 0)):
                     j = rng.randint(1, max(1, hi))
+                    if base == "DT" and not any(t[1] == f"New{j}" for t in types):
+                        # a singledispatch rule can only be written for a type that exists;
+                        # rules for later types arrive through 'regrule'
+                        continue
                     hs[f"new{j}"] = rng.choice(["post", "post", "pre"])
                 name = f"Alg{len(classes)}"
                 units.append({"n": 0, "k": "defalg", "op": ["defalg", next_c, base, name, hs, ["$", parent] if parent else None]})
@@ -308,6 +321,13 @@ class C20(Scenario):
                 pool = [e[0] for e in exprs] * 4 + KIT_ALL
                 e = rng.choice(pool)
                 units.append({"n": 0, "k": "applyreal", "op": ["applyreal", None, rng.choice(REAL_ALGS), e]})
+            elif k == "regrule":
+                dts = [c for c in classes if c[1] == "DT"]
+                if not dts or not types:
+                    continue
+                c = rng.choice(dts)
+                t = rng.choice(types)
+                units.append({"n": 0, "k": "regrule", "op": ["regrule", None, ["$", c[0]], ["$", t[0]], rng.choice(["post", "post", "pre"])]})
             elif k == "mkreal":
                 if len(reals) >= 6:
                     continue
